@@ -456,7 +456,10 @@ class UnaryAndMath(Contract):
             spec = lambda iv: f(idt(iv), A(arrays, b, list(iv)))  # noqa: E731
             shape = ns
         elif fn == "astype":
-            res = build(h, "build.unary", a.astype, np.float32)
+            # (a real-to-real cast: neither of astype's two explicit
+            # declines -- float/complex to integer, complex to real)
+            res = build(h, "build.unary", a.astype, np.float32,
+                        must_accept=True)
             spec = idt
             shape = ns
         elif fn == "logical_not":
